@@ -2,8 +2,9 @@
 
     Two decidable questions about the source tree, evaluated by [vm_compute] (the third check of the property, the
     comparison of independent replays, is [Model/ReplayCheck.v] and does not depend on the inventory):
-    - [unmatched_sites]: rows of the regenerated inventory ([Gen/HazardsGen.v: map_range_sites]) that match no row
-      of [Model/MapLoops.v: site_table] — a new or changed [range]-over-map statement = an open proof obligation;
+    - [unmatched_sites]: [range]-over-map statements of the regenerated inventory ([Gen/HazardsGen.v:
+      map_range_sites_ir], each loop as a term of the loop language of [Model/MapLoopsIR.v]) that the classifier does
+      not accept and that are not argued rows — an open proof obligation;
     - [unallowed_hazards]: (file, function) groups of [Gen/HazardsGen.v: other_hazards] whose number of hazardous
       constructs matches no allow-list row below — a new wall-clock read, random source, goroutine, file-system
       access ... in the state machine's source.
@@ -13,43 +14,77 @@
     (not harmless, exhibited by the replay engine); there is none at present: the two findings of this property
     (eth-ethash-tmpdir, typed-event-attr-order) are repaired in /repo and their constructs are no longer allowed. *)
 From Coq Require Import List String NArith Bool.
-From Teleport Require Import Base.Bytes Gen.HazardsGen Model.MapLoops.
+From Teleport Require Import Base.Bytes Gen.HazardsGen Model.MapLoops Model.MapLoopsIR.
 Import ListNotations.
 Local Open Scope string_scope.
 
-(** ** 1. inventory of [range]-over-map statements vs. the table *)
+(** ** 1. inventory of [range]-over-map statements: classified (proved), argued, or open *)
 
-Definition site_key (s : string * string * string * string * string * string) : string * string * string * string :=
-  let '(f, fn, _, h, fh, _) := s in (f, fn, h, fh).
+(** NOT proved — the loop is not a function of the entry set (or is not worth modelling) and the reason why it cannot
+    reach state, results or events is given; these rows are part of the "partial" of this property.  Keyed by file,
+    function and the hash of the normalised statement (a changed loop re-opens its row; the rest of the enclosing
+    function does not matter).  All three are in the ethash remote-sealer goroutine (mining work distribution):
+    started by New() -> startRemoteSealer and stopped by Close(); its maps (works, rates) are filled only by the RPC
+    channels submitWorkCh / submitRateCh, which nothing in teleport writes to; VerifySeal reads none of its state. *)
+Definition argued_sites : list (string * string * string * string) := [
+  ("x/xibc/clients/light-clients/eth/types/sealer.go", "*remoteSealer.loop", "6a4b56cc9067b274",
+     "float sum of reported hash rates, order-dependent; reaches only Ethash.Hashrate() (mining statistics); the rates map is filled through submitRateCh (RPC), never by the state machine");
+  ("x/xibc/clients/light-clients/eth/types/sealer.go", "*remoteSealer.loop", "04c174fb6bf56429",
+     "deletes stale mining work packages from remoteSealer.works; filled through workCh (Seal), never by header verification");
+  ("x/xibc/clients/light-clients/eth/types/sealer.go", "*remoteSealer.loop", "0dcd198901d8f37f",
+     "drops hash-rate reports older than 10 s (time.Since) from remoteSealer.rates; mining statistics only")
+].
 
-Definition key_eqb (a b : string * string * string * string) : bool :=
-  let '(f1, g1, h1, k1) := a in let '(f2, g2, h2, k2) := b in
-  String.eqb f1 f2 && String.eqb g1 g2 && String.eqb h1 h2 && String.eqb k1 k2.
+Definition is_argued (s : site) : bool :=
+  existsb (fun a => let '(f, fn, h, _) := a in String.eqb f (s_file s) && String.eqb fn (s_func s) && String.eqb h (s_hash s))
+          argued_sites.
 
-Definition table_key (t : string * string * string * string * disposition) : string * string * string * string :=
-  let '(f, fn, h, fh, _) := t in (f, fn, h, fh).
+(** a collecting loop is covered only when the type it is sorted by is a canonical sorter AND that type's Less method
+    in the tree is (textually) the one reviewed in [canonical_sorters] *)
+Definition sorter_ok (by_type : string) : bool :=
+  existsb (fun c => String.eqb (fst c) by_type &&
+                    existsb (fun m => String.eqb (fst m) by_type && String.eqb (snd m) (snd c)) less_methods)
+          canonical_sorters.
 
-Definition lookup_site (k : string * string * string * string) : option disposition :=
-  match find (fun t => key_eqb k (table_key t)) site_table with
-  | Some (_, _, _, _, d) => Some d
-  | None => None
+Inductive verdict := VProved (sh : shape) | VArgued | VOpen (why : string).
+
+Definition site_verdict (s : site) : verdict :=
+  match classify s with
+  | Some (_, ShCollectSort sl by_type) =>
+      if sorter_ok by_type then VProved (ShCollectSort sl by_type)
+      else if is_argued s then VArgued
+      else VOpen "the collected slice is sorted by a type that is not a reviewed canonical sorter (or its Less method changed)"
+  | Some (_, sh) => VProved sh
+  | None =>
+      if is_argued s then VArgued
+      else VOpen "outside the classified fragment (store / search / collect-then-sort): order independence not established"
   end.
 
-(** inventory rows without a table row (file, function, statement hash, function hash) — must be empty *)
+(** open obligations (file, function, statement hash, why) — must be empty *)
 Definition unmatched_sites : list (string * string * string * string) :=
-  filter (fun k => match lookup_site k with None => true | Some _ => false end) (map site_key map_range_sites).
+  flat_map (fun s => match site_verdict s with VOpen why => [(s_file s, s_func s, s_hash s, why)] | _ => [] end)
+           map_range_sites_ir.
 
-Definition is_proved (d : disposition) : bool := match d with Proved _ => true | Argued _ => false end.
+Definition count_sites (p : verdict -> bool) : N :=
+  N.of_nat (List.length (filter (fun s => p (site_verdict s)) map_range_sites_ir)).
 
-Definition sites_found : N := N.of_nat (List.length map_range_sites).
-Definition sites_matched : N :=
-  N.of_nat (List.length (filter (fun k => match lookup_site k with Some _ => true | None => false end) (map site_key map_range_sites))).
-Definition sites_proved : N :=
-  N.of_nat (List.length (filter (fun k => match lookup_site k with Some d => is_proved d | None => false end) (map site_key map_range_sites))).
-Definition sites_argued : N := (sites_matched - sites_proved)%N.
-(** rows of the table whose statement no longer exists in the tree (harmless; reported) *)
+Definition sites_found : N := N.of_nat (List.length map_range_sites_ir).
+Definition sites_proved : N := count_sites (fun v => match v with VProved _ => true | _ => false end).
+Definition sites_argued : N := count_sites (fun v => match v with VArgued => true | _ => false end).
+Definition sites_matched : N := (sites_proved + sites_argued)%N.
+(** how the proved sites split over the shapes: (store, search, collect-then-sort) *)
+Definition sites_by_shape : list N :=
+  [count_sites (fun v => match v with VProved ShStore => true | _ => false end);
+   count_sites (fun v => match v with VProved ShSearch => true | _ => false end);
+   count_sites (fun v => match v with VProved (ShCollectSort _ _) => true | _ => false end)].
+(** argued rows whose statement no longer exists in the tree (harmless; reported) *)
 Definition stale_table_rows : N :=
-  N.of_nat (List.length (filter (fun t => negb (existsb (fun s => key_eqb (site_key s) (table_key t)) map_range_sites)) site_table)).
+  N.of_nat (List.length (filter (fun a => let '(f, fn, h, _) := a in
+     negb (existsb (fun s => String.eqb f (s_file s) && String.eqb fn (s_func s) && String.eqb h (s_hash s)) map_range_sites_ir))
+     argued_sites)).
+(** the two inventories describe the same statements *)
+Definition ir_consistent : bool :=
+  Nat.eqb (List.length map_range_sites) (List.length map_range_sites_ir).
 
 (** ** 2. every other hazard vs. the allow-list *)
 
@@ -173,9 +208,40 @@ Definition allow_of (g : string * string * N) : option string :=
 
 Definition has_reason (r : string) : bool := existsb (fun p => String.eqb r (fst p)) reasons.
 
-(** groups that are new, or whose number of hazardous constructs changed, or whose reason id is undefined — must be empty *)
+(** what a reason is ABOUT: (reason id, admissible (kind, detail prefix) pairs).  A group allowed for such a reason must
+    consist of these constructs only — e.g. [R_telemetry] covers a wall-clock read only when the translator established
+    that the value read flows nowhere but into a metrics call ("[only into telemetry]": direct argument of a
+    cosmos-sdk/telemetry or go-metrics function, or a fresh variable all of whose uses are such arguments).  Reasons not
+    listed (the vendored ethash engine, the generated contract bindings) cover whole functions whatever the kind. *)
+Definition reason_scope : list (string * list (string * string)) := [
+  ("R_json_sorted", [("json-map", "json.")]);
+  ("R_node_home", [("os", "os.UserHomeDir"); ("filepath", "path/filepath.Join")]);
+  ("R_simulation", [("math-rand", "math/rand.Rand")]);
+  ("R_telemetry", [("wall-clock", "time.Now [only into telemetry]"); ("wall-clock", "time.Since [only into telemetry]")]);
+  ("R_hasher_pool", [("sync", "sync.Pool")]);
+  ("R_endianness", [("unsafe", "unsafe.Pointer")]);
+  ("R_keepalive", [("runtime", "runtime.KeepAlive")]);
+  ("R_typed_event_sorted", [("sdk-typed-event", "sdk.TypedEventToEvent")])
+].
+
+Definition in_scope (r kind detail : string) : bool :=
+  match find (fun p => String.eqb r (fst p)) reason_scope with
+  | Some (_, sc) => existsb (fun kd => String.eqb kind (fst kd) && String.prefix (snd kd) detail) sc
+  | None => true
+  end.
+
+(** every construct of the group (file, function) is of a kind its reason is about *)
+Definition group_in_scope (f fn r : string) : bool :=
+  forallb (fun h => let '(f', fn', kind, detail, _) := h in
+                    negb (String.eqb f f' && String.eqb fn fn') || in_scope r kind detail) other_hazards.
+
+(** groups that are new, or whose number of hazardous constructs changed, or whose reason id is undefined, or that
+    contain a construct their reason does not cover — must be empty *)
 Definition unallowed_hazards : list (string * string * N) :=
-  filter (fun g => match allow_of g with Some r => negb (has_reason r) | None => true end) hazard_groups.
+  filter (fun g => match allow_of g with
+                   | Some r => negb (has_reason r) || negb (group_in_scope (fst (fst g)) (snd (fst g)) r)
+                   | None => true
+                   end) hazard_groups.
 
 Definition is_finding_reason (r : string) : bool := String.prefix "F_" r.
 
@@ -187,8 +253,25 @@ Definition hazards_found : N := N.of_nat (List.length hazard_groups).
 Definition hazard_constructs : N := fold_left (fun a g => (a + snd g)%N) hazard_groups 0%N.
 Definition hazards_allowed : N := (hazards_found - N.of_nat (List.length unallowed_hazards) - N.of_nat (List.length finding_groups))%N.
 
+(** ** 3. the ETH seal verification's configuration, as written in VerifyCascadingFields (regenerated):
+    the cache directory is the empty string (in-memory cache) and VerifySeal is called with fulldag = false — the two
+    premises under which [Props/C14.v: eth_seal_env_independent] applies *)
+Definition assoc_str (k : string) (l : list (string * string)) : option string :=
+  match find (fun p => String.eqb k (fst p)) l with Some p => Some (snd p) | None => None end.
+
+Definition eth_seal_config_ok : bool :=
+  match assoc_str "CacheDir" eth_verify_config with
+  | Some v => String.eqb v """"""
+  | None => false
+  end &&
+  Nat.eqb (List.length (filter (fun p => String.eqb "CacheDir" (fst p)) eth_verify_config)) 1 &&
+  match eth_verify_seal_args with
+  | [_; fulldag] => String.eqb fulldag "false"
+  | _ => false
+  end.
+
 (** the whole static side condition *)
 Definition inventory_ok : bool :=
-  N.eqb typecheck_errors 0 &&
+  N.eqb typecheck_errors 0 && ir_consistent && eth_seal_config_ok &&
   match unmatched_sites with [] => true | _ => false end &&
   match unallowed_hazards with [] => true | _ => false end.
